@@ -14,6 +14,7 @@ structure Case where
   intervalNs : Nat      -- tick interval of the flow that owns `panicSite`
   latencyNs  : Nat      -- virtual latency of a pipeline call
   services   : Nat      -- recoverers per plugin
+  holdCtx    : Bool     -- "hold-close": the held call (and every other call of the fakes) honours cancellation — it returns only when its context ends
   work       : Nat      -- log payloads handed out per tick (> 0: the pipeline is exercised throughout the case)
   auxMax     : Nat      -- helper goroutines all services of one plugin own together (cache GCs, worker-group loops)
 deriving DecidableEq, Repr
@@ -27,6 +28,7 @@ structure Obs where
   closeReturned      : Bool
   closePanicked      : Bool   -- Close raised a panic instead of returning
   firstCloseBad      : Bool   -- factory reuse: closing the FIRST instance (after it had run for seconds) returned an error or panicked
+  soonLeft           : Nat    -- goroutines of the repository alive ONE virtual second after Close returned
   roundsBlocked      : Nat    -- foreground OCR rounds (Observation with a previous outcome) on the open instance that did not return
   progress           : Nat    -- check-pipeline calls of the instance under test that completed before its Close
   closedAtNs         : Nat    -- virtual time between the plugin's creation and the Close call.  0 = the very instant of creation:
@@ -68,6 +70,12 @@ def progressDue (cs : Case) (o : Obs) : Bool :=
 
 def progressOk (cs : Case) (o : Obs) : Bool := !progressDue cs o || decide (o.progress > 0)
 
+/-- Close must REACH what is in flight: when every call of the environment honours cancellation (a held call returns only
+    when its context ends), one virtual second after Close returned no goroutine of the instance may be running — a call
+    still in flight then was handed a context that Close does not end -/
+def lingerOk (cs : Case) (o : Obs) : Bool :=
+  !(cs.scenario == "hold-close" && cs.holdCtx) || decide (o.soonLeft = 0)
+
 /-- the panic clause of `spec` -/
 def panicOk (cs : Case) (o : Obs) : Bool :=
   !panicClauseApplies cs o ||
@@ -79,7 +87,7 @@ def spec (cs : Case) (o : Obs) : Bool :=
   (!o.closeCalled || o.closeReturned) &&
   !o.closePanicked && !o.firstCloseBad && decide (o.roundsBlocked = 0) &&
   !o.leak &&
-  progressOk cs o &&
+  lingerOk cs o && progressOk cs o &&
   panicOk cs o
 
 /-- the leak is exactly what schedule (a) leaves behind, and nothing else is wrong with the case:
@@ -103,7 +111,7 @@ def isCloseBeforeServiceStart (cs : Case) (o : Obs) : Bool :=
 
 /-- which conjunct fails (first match) -/
 inductive Verdict
-  | ok | panicEscaped | processDied | hung | closeDidNotReturn | closePanicked | firstInstanceCloseFailed | noProgress | roundBlocked
+  | ok | panicEscaped | processDied | hung | closeDidNotReturn | closePanicked | firstInstanceCloseFailed | noProgress | roundBlocked | lingersAfterClose
   | closeBeforeRunning        -- KNOWN FINDING (a)
   | closeBeforeServiceStart   -- KNOWN FINDING (b)
   | closeRefusedLate          -- a Close issued after start-up had quiesced was refused by a recoverer / service
@@ -123,7 +131,8 @@ def classifyLeak (cs : Case) (o : Obs) : Verdict :=
 
 /-- nothing is left: progress and the panic clause -/
 def classifyQuiet (cs : Case) (o : Obs) : Verdict :=
-  if !progressOk cs o then .noProgress
+  if !lingerOk cs o then .lingersAfterClose
+  else if !progressOk cs o then .noProgress
   else if panicClauseApplies cs o && !o.resumed then .panicNotResumed
   else if panicClauseApplies cs o && !decide (o.resumedWithinNs ≤ resumeBound cs) then .panicResumedLate
   else if panicClauseApplies cs o && !o.othersTicked then .panicStalledOthers
@@ -154,6 +163,7 @@ def render (cs : Case) (o : Obs) : Verdict → String
   | .closePanicked => "close-panicked: Close raised a panic instead of returning"
   | .firstInstanceCloseFailed => "first-instance-close-failed: closing the factory's first instance after it had run returned an error or panicked"
   | .roundBlocked => s!"round-blocked: {o.roundsBlocked} Observation call(s) on the open instance did not return within 5 virtual seconds (a background flow holds a lock of a shared store for ever)"
+  | .lingersAfterClose => s!"lingers-after-close: {o.soonLeft} goroutine(s) of the instance are still running one virtual second after Close returned, although every call in flight returns as soon as its context ends (a tick in progress was not handed a context that Close ends)"
   | .noProgress => s!"no-progress: the instance stayed open for {o.closedAtNs} ns with payloads on every tick and completed no check-pipeline call"
   | .closeBeforeRunning => s!"close-before-running: Close returned not-running for {o.errNotRunning} services and they kept running"
   | .closeBeforeServiceStart => s!"close-before-service-start: Close was refused by {o.errNotStarted} services that had not completed their start (not-running for {o.errNotRunning} more); they started afterwards and can no longer be closed"
@@ -171,7 +181,7 @@ def explain (cs : Case) (o : Obs) : String := render cs o (classify cs o)
 /-- tag of a failing verdict (the known findings are matched on fail string AND tag) -/
 def Verdict.tag : Verdict → String
   | .ok => "" | .panicEscaped => "panic-escaped" | .processDied => "process-died" | .hung => "hung" | .closeDidNotReturn => "close-did-not-return"
-  | .closePanicked => "close-panicked" | .firstInstanceCloseFailed => "first-instance-close-failed" | .noProgress => "no-progress" | .roundBlocked => "round-blocked"
+  | .closePanicked => "close-panicked" | .firstInstanceCloseFailed => "first-instance-close-failed" | .lingersAfterClose => "lingers-after-close" | .noProgress => "no-progress" | .roundBlocked => "round-blocked"
   | .closeBeforeRunning => "close-before-running" | .closeBeforeServiceStart => "close-before-service-start"
   | .closeRefusedLate => "close-refused-after-start-up"
   | .leakAndPanic => "leak-and-panic" | .closeSignalDropped => "close-signal-dropped" | .leakUnexplained => "leak-unexplained"
@@ -225,7 +235,7 @@ def predict (fx : Fixes) (cs : Case) (closedAtNs nNotRunning0 nNotStarted0 : Nat
   let ss := nNotRunning * la.serviceStart + nNotStarted * lb.serviceStart + nOk * lo.serviceStart
   let sv := nNotRunning * la.service + nNotStarted * lb.service + nOk * lo.service
   { survived := survived, crashed := false, hung := false, closeCalled := closeCalled && survived, closeReturned := closeCalled && survived,
-    closedAtNs := closedAtNs, closePanicked := false, firstCloseBad := false, roundsBlocked := 0,
+    closedAtNs := closedAtNs, closePanicked := false, firstCloseBad := false, soonLeft := 0, roundsBlocked := 0,
     progress := if survived then 1 else 0,   -- instances share nothing (each has its own runner): a second one works like a first
     errNotRunning := nNotRunning, errNotStarted := nNotStarted, errOther := 0,
     leakedServiceStart := if closeCalled then ss else 0, leakedService := if closeCalled then sv else 0, leakedAux := 0, leakedInflight := 0,
